@@ -19,12 +19,19 @@ structure Task where
 
 -- ---------------------------------------------------------------- task_status.go
 
+/-- `job.isFinalTaskState` -/
+def isFinalTaskState (st : TaskState) : Bool :=
+  st == .terminated || st == .deletedFinalStateUnknown
+
 /-- `job.GetTaskRef(existing, task)`.
 * `DeletedStatus` is taken from `existing` (when there is one);
 * a running / finish timestamp recorded in `existing` is retained only when the task itself
   reports none;
 * when the *task* reports a finish time (`finishTime` is read before the retention), `Status`
-  is copied into `DeletedStatus`, overwriting whatever marker was there (Appendix A item 8). -/
+  is copied into `DeletedStatus`, overwriting whatever marker was there (Appendix A item 8);
+* when `existing` is finished with a final state (Terminated / DeletedFinalStateUnknown) and the
+  task reports a finish time too, the recorded status, finish time and deleted status win
+  (fix 6ab84c2: first terminal observation is kept). -/
 def getTaskRef (existing : Option TaskRef) (task : Task) : TaskRef :=
   let taskRef := task.ref
   let finishTime := taskRef.finishTimestamp
@@ -37,7 +44,16 @@ def getTaskRef (existing : Option TaskRef) (task : Task) : TaskRef :=
       let r := if r.finishTimestamp.isNone then { r with finishTimestamp := ex.finishTimestamp } else r
       r
     | none => newTaskRef
-  if finishTime.isSome then { newTaskRef with deletedStatus := some newTaskRef.status } else newTaskRef
+  let newTaskRef :=
+    if finishTime.isSome then { newTaskRef with deletedStatus := some newTaskRef.status } else newTaskRef
+  -- once a final status has been recorded for a task it is kept (`isFinalTaskState`)
+  match existing with
+  | some ex =>
+    if ex.finishTimestamp.isSome && finishTime.isSome && isFinalTaskState ex.status.state then
+      { newTaskRef with status := ex.status, finishTimestamp := ex.finishTimestamp,
+                        deletedStatus := ex.deletedStatus }
+    else newTaskRef
+  | none => newTaskRef
 
 /-- order of `SortTaskRefs`: creation timestamp ascending (zero time first), then name -/
 def refLt (a b : TaskRef) : Bool :=
